@@ -278,7 +278,7 @@ func ruleGlobals(c *Ctx, r *Report, prefix string) {
 		if fn.Blocks == nil {
 			continue
 		}
-		for _, b := range fn.Blocks {
+		for _, b := range theCtx.GB(fn) {
 			for _, ins := range b.Instrs {
 				ops = ins.Operands(ops[:0])
 				for _, o := range ops {
@@ -480,7 +480,7 @@ func ruleNondeterminism(c *Ctx, r *Report, prefix string) {
 		if pkgPathOf(fn) == full("internal/xlog") {
 			continue // logging is guarded by its mutex and silent for debug output by default
 		}
-		for _, b := range fn.Blocks {
+		for _, b := range theCtx.GB(fn) {
 			for _, ins := range b.Instrs {
 				var what string
 				switch x := ins.(type) {
